@@ -583,7 +583,11 @@ func (c *SCtx) eval(e *SExpr) *Val {
 				c3.env[k] = v
 			}
 			c3.env[e.Name] = &Val{K: KScalar, Typ: bt, T: sk}
-			return &Val{K: KScalar, Typ: types.Typ[types.Bool], T: c3.bool(e.Args[0])}
+			// no definitions may capture the skolem constant: the proved goal is later assumed universally
+			ex.noName++
+			bt2 := c3.bool(e.Args[0])
+			ex.noName--
+			return &Val{K: KScalar, Typ: types.Typ[types.Bool], T: bt2}
 		}
 		ex.ctr++
 		bn := fmt.Sprintf("%s!q%d", sanitize(e.Name), ex.ctr)
@@ -822,6 +826,18 @@ func (c *SCtx) evalCall(e *SExpr) *Val {
 			return c.fail("same(%s): values are not comparable", e.Args[0].String())
 		}
 		return &Val{K: KScalar, Typ: types.Typ[types.Bool], T: t}
+	case "ctz64", "clz64", "ctz32", "clz32":
+		x := c.eval(e.Args[0])
+		if x.K == KScalar && x.T.Sort.K == SBV {
+			var t Term
+			if strings.HasPrefix(e.Name, "ctz") {
+				t = ctz(x.T)
+			} else {
+				t = clz(x.T)
+			}
+			return &Val{K: KScalar, Typ: types.Typ[types.Int], T: ZExt(t, 64)}
+		}
+		return c.fail("bad argument of %s", e.Name)
 	case "iscorrupt":
 		x := c.eval(e.Args[0])
 		if x.K == KScalar && x.T.Sort == BV(32) {
